@@ -61,7 +61,7 @@ def history(seed, length, source="dendrobine_mol2", kind="Molecule"):
         free_extra = [t for t, _, _ in EXTRA if t not in live]
         ops = []
         if free_extra:
-            ops += ["add_atom"] * 2 + ["append_atom", "append_bond"]
+            ops += ["add_atom"] * 2 + ["append_atom", "append_bond", "new_atom"]
             if len(free_extra) >= 2:
                 ops += ["append_bond2"]
         if len(live) >= 2:
@@ -86,6 +86,11 @@ def history(seed, length, source="dendrobine_mol2", kind="Molecule"):
             t = rnd.choice(free_extra); q = kind == "Molecule" and rnd.random() < 0.5
             r = ad.apply({"act": "add_atom", "a": t, "q": q})
             log("add_atom", r["out"], a=t, q=bool(q))
+        elif op == "new_atom":
+            t = rnd.choice(free_extra)
+            r = ad.apply({"act": "new_atom", "a": t}); log("new_atom", r["out"], a=t)
+            if ad.view is None:
+                view_tags = []
         elif op == "append_atom":
             t = rnd.choice(free_extra)
             r = ad.apply({"act": "append_atom", "a": t}); log("append_atom", r["out"], a=t)
